@@ -411,11 +411,57 @@ def coq_str(s: str) -> str:
     return '"' + s + '"'
 
 
+def auto_number(utils_tree) -> tuple[int, int]:
+    """apply_run_number: (step added to the largest number found, number used when nothing matches)."""
+    fn = find_func(utils_tree, "apply_run_number")
+    inner = [n for n in fn.body if isinstance(n, ast.FunctionDef) and n.name == "get_number"]
+    if len(inner) != 1:
+        fail(fn, "apply_run_number must define get_number")
+    gsrc = ast.unparse(inner[0])
+    if "re.search('\\\\d+$', string.split('.')[-2])" not in gsrc or "return 0" not in gsrc \
+            or "int(search.group())" not in gsrc:
+        fail(inner[0], "get_number: unknown shape")
+    assigns = {}
+    for n in ast.walk(fn):
+        if isinstance(n, (ast.Assign, ast.AnnAssign)):
+            tgt = n.target if isinstance(n, ast.AnnAssign) else n.targets[0]
+            if isinstance(tgt, ast.Name) and n.value is not None:
+                assigns.setdefault(tgt.id, []).append(n.value)
+    want = {"path_str_for_glob": ["template_str.replace('?', '*')"], "dir_list": ["glob(path_str_for_glob)"],
+            "num_list": ["sorted((get_number(d) for d in dir_list))"]}
+    for k, v in want.items():
+        if [ast.unparse(x) for x in assigns.get(k, [])] != v:
+            fail(fn, f"apply_run_number: `{k}` must be {v[0]}")
+    nx = assigns.get("next_num", [])
+    if len(nx) != 2:
+        fail(fn, "apply_run_number: two assignments of next_num expected")
+    step = first = None
+    for v in nx:
+        if isinstance(v, ast.BinOp) and isinstance(v.op, ast.Add) and ast.unparse(v.left) == "num_list[-1]" \
+                and isinstance(v.right, ast.Constant) and isinstance(v.right.value, int) \
+                and not isinstance(v.right.value, bool) and v.right.value >= 0:
+            step = v.right.value
+        elif isinstance(v, ast.Constant) and isinstance(v.value, int) and not isinstance(v.value, bool) and v.value >= 0:
+            first = v.value
+        else:
+            fail(v, "next_num must be `num_list[-1] + <int>` or an int literal")
+    if step is None or first is None:
+        fail(fn, "apply_run_number: next_num shapes")
+    ifs = [n for n in ast.walk(fn) if isinstance(n, ast.If) and ast.unparse(n.test) == "num_list"]
+    if len(ifs) != 1 or "num_list[-1]" not in ast.unparse(ifs[0].body[0]):
+        fail(fn, "apply_run_number: `if num_list:` must select the largest-number branch")
+    fmt_calls = [ast.unparse(n) for n in ast.walk(fn) if isinstance(n, ast.Call) and isinstance(n.func, ast.Attribute)
+                 and n.func.attr == "format"]
+    if sorted(fmt_calls) != ["path_str.format(next_num)", "path_str.format(run_number + 1)"]:
+        fail(fn, f"apply_run_number: unexpected format calls {fmt_calls}")
+    return step, first
+
+
 def cb(b: bool) -> str:
     return 'true' if b else 'false'
 
 
-def render(excl: bool, writers, new_tab, old_tab, exts, flags) -> str:
+def render(excl: bool, writers, new_tab, old_tab, exts, flags, auto=(1, 1)) -> str:
     ws = "; ".join(f"({coq_str(w)}, {b})" for w, b in writers)
     nt = "; ".join(f"({FMT[k]}, {'None' if w is None else 'Some ' + coq_str(w)})" for k, w in new_tab)
     ot = "; ".join(f"({FMT[k]}, {coq_str(w)})" for k, w in old_tab)
@@ -430,7 +476,8 @@ def render(excl: bool, writers, new_tab, old_tab, exts, flags) -> str:
             f"  t_old := [{ot}];\n"
             f"  t_old_ext := [{et}];\n"
             f"  t_seq_new_stage := {cb(flags[0])}; t_old_all_items := {cb(flags[1])};\n"
-            f"  t_old_merge := {cb(flags[2])}; t_dask_snapshot := {cb(flags[3])} |}}.\n")
+            f"  t_old_merge := {cb(flags[2])}; t_dask_snapshot := {cb(flags[3])} |}}.\n"
+            f"Definition src_auto : auto_cfg := {{| a_step := {int(auto[0])}; a_first := {int(auto[1])} |}}.\n")
 
 
 def translate(repo: Path) -> str:
@@ -453,7 +500,7 @@ def translate(repo: Path) -> str:
     check_build_filenames(repo)
     all_items, merge = old_items_and_merge(repo)
     flags = (seq_new_stage(repo), all_items, merge, dask_snapshot(repo))
-    return render(excl, writers, new_tab, old_tab, exts, flags)
+    return render(excl, writers, new_tab, old_tab, exts, flags, auto_number(utils))
 
 
 # the text for the unchanged tree (C19-F17a/b/c/d repaired)
